@@ -268,10 +268,13 @@ func closeOpenFiles(L *LState) {
 		if file.closed {
 			continue
 		}
-		file.closed = true
 		if bwriter, ok := file.writer.(*bufio.Writer); ok {
 			bwriter.Flush() // ignore errors, as for the temporary files
 		}
+		if file.std { // flushed (as exit() does with stdout/stderr), never closed
+			continue
+		}
+		file.closed = true
 		file.fp.Close()
 	}
 	L.G.openFiles = nil
@@ -280,9 +283,6 @@ func closeOpenFiles(L *LState) {
 // rememberOpenFile: only a handle that got a buffered writer needs LState.Close (its bytes would
 // be lost); all others are left to the garbage collector, which closes their descriptors.
 func rememberOpenFile(L *LState, file *lFile) {
-	if file.std {
-		return
-	}
 	for _, f := range L.G.openFiles {
 		if f == file {
 			return
